@@ -35,10 +35,13 @@ def _arr_equal(a, b, what):
 
 
 def _cell_equal(a, b):
-    an = a is None or (isinstance(a, float) and a != a)
-    bn = b is None or (isinstance(b, float) and b != b)
+    # "with None mapped back to NaN": a NaN cell must come back as NaN, not as None (and None only as None)
+    an = isinstance(a, float) and a != a
+    bn = isinstance(b, float) and b != b
     if an or bn:
         return an and bn
+    if a is None or b is None:
+        return a is None and b is None
     if isinstance(a, (np.ndarray, list)) or isinstance(b, (np.ndarray, list)):
         return np.array_equal(np.asarray(a, dtype=float), np.asarray(b, dtype=float), equal_nan=True)
     return a == b
@@ -100,6 +103,12 @@ def roundtrip_violations(soln, OptimResults):
             if list(da.index) != list(db.index) or any(type(t) is str for t in db.index):
                 v.append(("table_row_labels", "row labels %r... became %r..." % (list(da.index)[:3], list(db.index)[:3])))
             for c in da.columns:
+                if da[c].dtype.kind != db[c].dtype.kind:
+                    # a float column that is NaN in every row comes back as a column of None (own clause: known finding)
+                    allnan = da[c].dtype.kind == "f" and bool(da[c].isna().all()) and db[c].dtype == object and all(t is None for t in db[c].tolist())
+                    v.append(("table_dtypes_all_nan_column" if allnan else "table_dtypes",
+                              "column %s: dtype %s became %s%s" % (c, da[c].dtype, db[c].dtype, " (every cell NaN -> None)" if allnan else "")))
+                    break
                 ca, cb = da[c].tolist(), db[c].tolist()
                 bad = [i for i in range(len(ca)) if not _cell_equal(ca[i], cb[i])]
                 if bad:
